@@ -169,6 +169,7 @@ fn one_case(ctx: &Ctx, case: u64, l: &mut Local) {
         h
     };
     let n_strict = if ctx.tier == Tier::Quick { 5 } else { 8 };
+    let mut shared_holder: Option<sd_jwt_rs::SDJWTHolder> = None;
     for k in 0..n_strict {
         let sel_kind = if k == 0 {
             SelKind::Everything
@@ -198,15 +199,22 @@ fn one_case(ctx: &Ctx, case: u64, l: &mut Local) {
                 gen::shape_fingerprint(&s.u) ^ pos(&s.strat.sd).rotate_left(17) ^ pos(&d).rotate_left(31) ^ (cfg.fmt as u64) ^ ((kb.is_some() as u64) << 1),
             ));
         }
-        let mut holder = match api::holder_new(&issued.sd_jwt, cfg.fmt) {
-            Outcome::Ok(h) => h,
-            other => {
-                let other = other.map(|_| ());
-                l.violate(viol(case, "holder-new", class, other.panic_signature().unwrap_or_else(|| other.describe()), json!({"input": input(), "history": api::history()})));
-                return;
-            }
-        };
-        let pres = match api::present(&mut holder, &sel, kb.as_ref()) {
+        // even cases: a fresh holder per presentation; odd cases: one holder for all of them
+        // (a key-binding JWT must appear only in the presentation it was requested for)
+        if shared_holder.is_none() || case % 2 == 0 {
+            shared_holder = match api::holder_new(&issued.sd_jwt, cfg.fmt) {
+                Outcome::Ok(h) => Some(h),
+                other => {
+                    let other = other.map(|_| ());
+                    l.violate(viol(case, "holder-new", class, other.panic_signature().unwrap_or_else(|| other.describe()), json!({"input": input(), "history": api::history()})));
+                    return;
+                }
+            };
+        } else {
+            l.count("holder.reused");
+        }
+        let holder = shared_holder.as_mut().unwrap();
+        let pres = match api::present(holder, &sel, kb.as_ref()) {
             Outcome::Ok(p) => p,
             other => {
                 l.violate(viol(case, "present", class, other.panic_signature().unwrap_or_else(|| other.describe()), json!({"input": input(), "history": api::history()})));
